@@ -4,7 +4,8 @@ lean/FimVerif/Model/Lock.lean (`Stmt` over `Micro`).
 Source read: fim/graph/networkx_property_graph.py            NetworkXGraphStorage.__NetworkXGraphStorage
              fim/graph/networkx_property_graph_disjoint.py   NetworkXGraphStorageDisjoint.__NetworkXGraphStorage
 
-Control flow: Expr/Assign/AnnAssign/AugAssign/Return/Raise/If/For/While/Try(except, finally)/With self.lock/Pass.
+Control flow: Expr/Assign/AnnAssign/AugAssign/Return/Raise/If/For/While/Try(except, finally)/With self.lock/Pass;
+`self.__init__(...)` and `self.lock = ...` inside a method are the micro `reinit` (the store replaces its own lock object).
 Anything else (break, continue, try-else, nested defs, yield, ...) is an ExtractionError.
 
 The skeleton is taken from a *normalised* form of each method, so that rewrites that do not change what a method does to
@@ -13,7 +14,8 @@ the lock and to the shared state give the same skeleton:
  N1  docstrings, comments, annotations (signature, `x: T = v`) are dropped;
  N2  `with self.lock: B`  ==  `self.lock.acquire(); try: B finally: self.lock.release()`; an `except` clause that only
      re-raises what it caught (`except Exception as e: raise e`, bare `raise`) is dropped;
- N3  a call of a private/static helper of the same class (`self._h(a, b)`, name starts with `_`) is expanded in place, its
+ N3  a call of a method of the same class (`self._h(a, b)`: private/static helpers, but also public methods - a locked
+     method calling a locked method acquires twice) is expanded in place, its
      parameters replaced by the arguments (which must be names / constants / `self.x`); a helper whose body is one
      `return <expr>` is expanded inside expressions; a helper body that contains `return` becomes `.call <body>` (its
      return resumes the caller), one that does not is spliced into the caller's sequence.  The no-raise whitelist is applied
@@ -77,6 +79,7 @@ ACCESS = [
     ("shared", r"self\.start_id = self\.start_id \+ 1", ["bump 0 1"]),
     ("shared", r"self\.start_id \+= 1", ["bump 0 1"]),
     ("shared", r"self\.start_id = new_id \+ 1", ["bumpReg 0 1"]),
+    ("shared", r"self\.start_id = 1", ["setCtr 0 1"]),
     ("shared", r"self\.graphs\.add_nodes_from\(temp_graph\.nodes\(data=True\)\)", ["add 0 1 %d!" % K]),
     ("shared", r"self\.graphs\.add_edges_from\(temp_graph\.edges\(data=True\)\)", ["rdg!"]),
     ("shared", r"self\.graphs\.add_node\(self\.start_id, GraphID=graph_id, \*\*attrs\)", ["read 0!", "add 0 1 1"]),
@@ -234,12 +237,14 @@ class Tr:
         self.flavour = flavour
         self.src = src
         self.cls = cls
-        self.helpers = {}       # name -> FunctionDef (private / static helpers of the class)
+        self.helpers = {}       # name -> FunctionDef (methods of the class that `self.<name>(...)` can reach)
         self.rows_used = set()
         self.cache = {}
         self.depth = 0
+        # every method of the class can be called through `self` - a public one too (a locked method that calls another
+        # locked method re-acquires the lock it holds: the expanded skeleton shows the second `acq`)
         for fn in cls.body:
-            if isinstance(fn, ast.FunctionDef) and _is_private(fn.name):
+            if isinstance(fn, ast.FunctionDef) and not (fn.name.startswith("__") and fn.name.endswith("__")):
                 self.helpers[fn.name] = fn
 
     # -- N3: helpers -------------------------------------------------------------------------
@@ -429,6 +434,10 @@ class Tr:
         if isinstance(st, ast.Expr):
             if isinstance(st.value, ast.Constant):
                 return []
+            v = st.value
+            if isinstance(v, ast.Call) and _self_attr(v.func, ("__init__",)):
+                # the store re-initialises itself: fresh containers and counters and a NEW lock object
+                return ["(.prim .reinit true)"]
             if self.helper_of(st.value) is not None:
                 return self.expand_call(st.value, what, env)[0]
             return self.leaf(self.sub(st, env), what)
@@ -514,6 +523,8 @@ class Tr:
         return exc is None or (hd.name is not None and isinstance(exc, ast.Name) and exc.id == hd.name)
 
     def assign(self, st, what, env):
+        if any(_self_attr(t, ("lock",)) for t in st.targets):
+            return ["(.prim .reinit true)"]                  # the lock object is replaced
         single = len(st.targets) == 1 and isinstance(st.targets[0], ast.Name)
         if not single:
             s2 = self.sub(st, env)
@@ -640,10 +651,11 @@ def _singleton(flavour, tree, oc, cls):
         if isinstance(fn, ast.FunctionDef) and fn.name != "__init__":
             for n in ast.walk(fn):
                 if isinstance(n, ast.Attribute) and isinstance(n.value, ast.Name) and n.value.id == "self":
-                    if n.attr == "lock" and isinstance(n.ctx, (ast.Store, ast.Del)):
-                        raise ExtractionError("%s store, %s: the lock object is replaced" % (flavour, fn.name))
-                    if n.attr in ("__init__", "__dict__", "__class__"):
-                        raise ExtractionError("%s store, %s: re-initialises / rewires the store object" % (flavour, fn.name))
+                    # (`self.__init__(...)` and `self.lock = ...` inside a method are translated: micro `reinit`)
+                    if n.attr == "lock" and isinstance(n.ctx, ast.Del):
+                        raise ExtractionError("%s store, %s: the lock object is deleted" % (flavour, fn.name))
+                    if n.attr in ("__dict__", "__class__"):
+                        raise ExtractionError("%s store, %s: rewires the store object" % (flavour, fn.name))
                 if isinstance(n, ast.Call) and isinstance(n.func, ast.Name) and n.func.id in ("setattr", "delattr", "vars"):
                     raise ExtractionError("%s store, %s: rewires the store object through %s()" % (flavour, fn.name, n.func.id))
     if cls.bases or cls.keywords:
@@ -683,7 +695,7 @@ def extract():
             if fn.name == "__init__":
                 continue
             text = tr.method(fn, "%s.%s" % (flavour, fn.name))
-            if fn.name in tr.helpers:
+            if _is_private(fn.name):
                 kind = "helper"
             else:
                 kind = "locking" if _takes_lock(fn) else "lockfree"
